@@ -38,6 +38,7 @@ pub fn probes(_tier: &str) -> Vec<String> {
     "probe.revoke_batch",
     "probe.unrevoke_batch",
     "probe.multi_container",
+    "probe.dense_run",
     "probe.validation_revoked",
     "probe.validation_not_revoked",
     "probe.legacy_endpoint_decoded",
@@ -75,6 +76,17 @@ fn gen_batch(max: usize, next_seq: &mut u32, mentioned: &BTreeSet<u32>) -> (Vec<
   }
   .min(max)
   .max(1);
+  if ctx::choose(14) == 0 {
+    // a long consecutive run: a dense set whose serialised form is large but compresses extremely well
+    ctx::stat("probe.dense_run");
+    let base = match ctx::choose(3) {
+      0 => 0u32,
+      1 => 1000,
+      _ => ctx::draw_u32() & 0x00FF_FFFF,
+    };
+    let len = 4096 + ctx::choose(8000) as u32;
+    return ((base..base + len).collect(), "dense-run");
+  }
   match ctx::choose(6) {
     5 => {
       // ascending with duplicates and gaps (e.g. [5,5,7]): looks like a consecutive block by first/last/len
